@@ -66,6 +66,18 @@ CHECKS["C12"] = dict(
     note=COMMON_NOTE + " Convergence of finite differences to spectral derivatives and the conditioning of the dense solve are not decided.",
 )
 
+CHECKS["C13"] = dict(
+    level="other",
+    technique="static analysis: ast -> sympy term extraction of the four integration weights and of T30/T33, CAS identity against an "
+              "independently derived covariant form; def-use pairing of tuple positions and keywords",
+    text="For every grid size, momentum scale and mass profile at once: the measure and the four weights handed to the quadrature are, as "
+         "terms of the source, deltaF * {1, pz^2, E^2, E pz} * (dpz/drz)(dpp/drp) p_par/(4 pi^2 E) on the (pz, pp) axes with the Jacobians "
+         "on their own axes; each keyword of the container receives its own weight; T30 and T33 equal, as an algebraic identity in the "
+         "moments, masses and velocity, the covariant decomposition of the direct integral of p^mu p^nu deltaF boosted to the wall frame "
+         "(derived independently of the code's formula); no weight depends on deltaF; container arithmetic maps each moment to itself.",
+    note=COMMON_NOTE + " Exactness of the Gauss-Chebyshev-Lobatto quadrature itself is covered structurally under C16, not here.",
+)
+
 NOT_APPLICABLE = {}
 
 ENGINES = [
